@@ -22,7 +22,7 @@ func init() {
 		"deterministic simulation: seeded one-at-a-time scheduler over real code + instruction-level interpreter; linearizability oracle",
 		"DESIGN.md 5.2")
 	t("C01",
-		"Seeded simulated boots over generated memory maps and kernel placements followed by multi-caller allocate/free histories; every frame handed out is checked against independently computed reference sets (available, kernel, early-boot, currently held).",
+		"Seeded simulated boots over generated memory maps and kernel placements followed by multi-caller allocate/free histories; every frame handed out is checked against independently computed reference sets (available, kernel, early-boot, currently held). Sub-check C01B boots the real PMM and the real VMM as one system on one simulated machine and checks exclusivity and conservation of frames across both managers.",
 		"Trusted: block builder, reference arithmetic (division-based), stubs for region reservation and mapping. Sequential histories only (concurrency is C09).",
 		"deterministic simulation: simulated boot + seeded operation histories against a reference model",
 		"DESIGN.md 5.1")
@@ -42,7 +42,7 @@ func init() {
 		"deterministic simulation: seeded scheduler over yield-instrumented real code; invariants + linearizability (porcupine) of recorded histories",
 		"DESIGN.md 5.1 / 4.3")
 	t("C04",
-		"Seeded operation histories on a software MMU with every present leaf of every address space compared against a page->entry model by an independent walker after each operation, plus systematic enumeration: for a short history every (operation, k-th frame allocation) pair is made to fail once. Sampling of histories; enumeration of fault points within each sampled history.",
+		"Seeded operation histories on a software MMU with every present leaf of every address space compared against a page->entry model by an independent walker after each operation, plus systematic enumeration: for a short history every (operation, k-th frame allocation) pair is made to fail once; plus an extended mode (C04T) in which the simulated TLB retains recursive-window translations until they are invalidated or evicted by a seeded eviction. Sampling of histories; enumeration of fault points within each sampled history.",
 		"Trusted: simulated MMU (ideal: no stale TLB entries), walker, allocator stub, temporary-mapping data-path shim. nextAddrFn's argument (virtual address arithmetic of the next table) is not exercised.",
 		"deterministic simulation with fault injection: software MMU, seeded histories + systematic k-th allocation failure, reference model refinement",
 		"DESIGN.md 5.3.2")
